@@ -489,6 +489,10 @@ func (r *ccipChainReader) GetChainsFeeComponents(
 			r.lggr.Errorw("failed to get chain fee components", "chain", chain, "err", err)
 			continue
 		}
+		if feeComponent == nil {
+			r.lggr.Errorw("chain writer returned no fee components", "chain", chain)
+			continue
+		}
 		feeComponents[chain] = *feeComponent
 	}
 	return feeComponents
